@@ -13,6 +13,7 @@
 -/
 import Psa.Model.Codec
 import Psa.Props.C01
+import Psa.Proofs.RoundTrip
 namespace Psa.Props.C04
 open Psa Psa.Model Psa.Spec
 
@@ -141,5 +142,22 @@ theorem accept_iff_conformant_negation :
     ∃ c, decodeClaimsTree (fun s => .ok s) [] d7Token = .ok c ∧ validate c = .ok () ∧
       c.implId = some (List.replicate 32 7) := by
   refine ⟨_, rfl, by decide, rfl⟩
+
+/-- **the converse half, at the exact wire types**: the wire token of every conformant claims-set of a built-in profile
+    (each claim present under its key with exactly the profile's CBOR type and value, valid-UTF-8 text) is accepted by
+    the validating decoder, and what it returns reads back as exactly those values. Together with
+    `accepted_is_conformant` this is acceptance ⇔ conformance on tokens free of the recorded leniencies. -/
+theorem wire_token_accepted (u : Bytes → Dec Bytes) (extra : List Bytes) (c : Claims) (hv : validate c = .ok ())
+    (hb : Proofs.ClaimsBounded c) (ht : Proofs.RT.TextOK c) (hbi : Proofs.RT.Builtin c) (hu : u p2Name = .ok p2Name) :
+    ∃ c', decodeAndValidate u extra (Spec.wireToken c).enc = .ok c' ∧ ∀ g, Model.get g c' = Model.get g c := by
+  obtain ⟨b, c', h1, h2, h3, h4, _⟩ := Proofs.RT.decode_encode_obs u extra c hv hb ht hbi hu
+  have hb' : b = (Spec.wireToken c).enc := by
+    have := (C10.encode_is_wire_token c hv).2
+    rw [h1] at this
+    simpa using this
+  refine ⟨c', ?_, h3⟩
+  unfold decodeAndValidate
+  rw [← hb', h2]
+  simp [Dec.bind, h4]
 
 end Psa.Props.C04
